@@ -260,6 +260,12 @@ def argParse (schema : List TypedArg) (fs : Str) (total : Int) (args : List (Str
 
 def wrap32 (v : Int) : Int := (v + 2 ^ 31) % 2 ^ 32 - 2 ^ 31
 
+/-- checks `init()` makes after the argument parser succeeded: `Senpai::init` refuses a
+    non-positive `pressure_ms` (the default, 10, is positive) -/
+def postParseRejects (sch : TypedSchema) (vals : List (Str × Val)) : Bool :=
+  sch.plugin == "senpai" &&
+    vals.any (fun kv => kv.1 == "pressure_ms".toList && (match kv.2 with | .int v => decide (v ≤ 0) | _ => false))
+
 /-- `init()` of the registered plugin described by `sch` -/
 def pluginInit (env : Env) (sch : TypedSchema) (args : List (Str × Str)) : Option (List (Str × Val)) :=
   if !sch.checksArgs then some []                            -- init() returns 0 whatever it is given
@@ -276,7 +282,10 @@ def pluginInit (env : Env) (sch : TypedSchema) (args : List (Str × Str)) : Opti
   else if sch.plugin == "kill_by_swap_usage" then
     -- `auto swapTotal = 0;` is an int
     argParse sch.args env.fs (wrap32 ((env.swapAt (lookupArg args "meminfo_location")).getD 0)) (eraseArg args "meminfo_location")
-  else argParse sch.args env.fs 0 args
+  else
+    match argParse sch.args env.fs 0 args with
+    | none => none
+    | some vals => if postParseRejects sch vals then none else some vals
 
 def schemaOf (table : List TypedSchema) (hook : Bool) (name : Str) : Option TypedSchema :=
   table.find? (fun s => s.plugin.toList == name && s.isHook == hook)
